@@ -4,10 +4,10 @@
 def classify(inp, obs, tags):
     t = inp.split(" ", 2)
     out = [f"format:{t[0]}", f"type:{t[1]}"] + list(tags)
-    ops = inp.split(" ")[3:]
+    ops = inp.split(" ")[4:]
     for o in ops:
         out.append("op:" + {"p": "push", "t": "truncate", "w": "write", "f": "flush", "s": "stamped-write", "r": "reset",
-                            "i": "reimport", "o": "reopen"}.get(o.split(":")[0], "other"))
+                            "i": "reimport", "o": "reopen", "b": "rollback", "bb": "rollback-before"}.get(o.split(":")[0], "other"))
     n = sum(int(o.split(".")[-1]) for o in ops if o.startswith("p:") and "." in o)
     per_page = 16384 // {"u8": 1, "u16": 2, "a3": 3, "u32": 4, "f32": 4, "u64": 8, "i64": 8, "f64": 8, "u128": 16}.get(t[1], 8)
     out.append("pushed-pages:" + ("<1" if n < per_page else "1-2" if n < 2 * per_page else "2-4" if n < 4 * per_page else ">=4"))
@@ -21,7 +21,7 @@ def classify(inp, obs, tags):
 
 PROP = dict(
     engines=[dict(
-        name="compvec", classify=classify,
+        name="compvec", classify=classify, extra=["--mode", "hist"],
         quick=dict(cases=480, shards=16, profiles=["debug"]),
         thorough=dict(cases=48000, shards=16, profiles=["debug", "release"]),
     )],
@@ -44,7 +44,7 @@ PROP = dict(
         "the lengths of the real compressor's outputs enter the model as per-page hints read back from the on-disk index "
         "(`compress` takes a hint the real compressors ignore; every theorem quantifies over all hints)",
         "flush()/Database::flush() have no effect on the abstract regions (durability is C05)",
-        "stamped writes are exercised with saved_stamped_changes = 0; rollback of compressed vectors is C04/C16",
+        "engine mode `hist` (retention 0); commit/rollback histories of compressed vectors run under C04/C16 (mode `rollback`)",
     ],
 )
 
@@ -65,8 +65,9 @@ TEXT = dict(
           "compressed pages and at most one raw last page, the data region ends at the last page, no operation errs or "
           "panics, and collect() returns exactly the reference contents provided the compressor round-trips. The model "
           "follows the repaired early return of write() (Pages::has_changes), so reset();flush();re-import agrees with the "
-          "reference. C07_lossless is partial: the refinement is proved on the decoded page contents; the final link to "
-          "cv_collect (read_into_at's page loop) is covered differentially only."),
+          "reference. C07_lossless is proved at full strength: after every history what collect() = read_into_at(0, len) "
+          "returns is exactly the reference contents (cv_collect = view, read_pages loop); other read entry points are C08. "
+          "Commits at any retention are covered (the change record is serialised without error); rollbacks are C04comp."),
     note=("Trusted: Coq kernel; gen_consts.py; extraction + OCaml driver; the Rust harness. The compressors are tested, not "
           "verified. The Rust code is modelled, not verified: the tie is regenerated constants plus differential agreement "
           "(bounded sample) on the model's internal state after every step."),
